@@ -75,6 +75,10 @@ func c05World(r *hx.Run) (*W, []c05Srv, map[string]*hx.MemStore) {
 			cfg.Caches = append(cfg.Caches, cc)
 			cfg.Servers = append(cfg.Servers, config.ServerConfig{Addr: sp.addr, Locations: []string{"l", "lpt"}, Cache: cc.Name,
 				Compress: comps[sp.name], CompressMinLength: mins[sp.name], CompressContentTypeFilter: sp.filter})
+			if i%2 == 1 {
+				// an access log on every second server: the logger middleware wraps the whole chain
+				cfg.Servers[len(cfg.Servers)-1].LogFormat = "{method} {uri} {status} {<x-status} {size-human} {latency}"
+			}
 		}
 		return cfg
 	})
